@@ -338,6 +338,36 @@ func (it *Interp) staticValue(v ssa.Value, cell *ICell, in *ssa.Function, depth 
 		it.staticValue(inner, cell, in, depth+1)
 	case *ssa.MakeInterface:
 		it.staticValue(x.X, cell, in, depth+1)
+	case *ssa.Call:
+		// a value computed once by a function of the analysed packages that takes nothing (var t = func() (a [256]bool)
+		// { … }()): evaluated
+		var f *ssa.Function
+		switch cv := x.Call.Value.(type) {
+		case *ssa.Function:
+			f = cv
+		case *ssa.MakeClosure:
+			if len(cv.Bindings) == 0 {
+				f, _ = cv.Fn.(*ssa.Function)
+			}
+		}
+		if f == nil || len(f.Params) != 0 || len(x.Call.Args) != 0 || len(f.Blocks) == 0 || !curProgRoot(f) && f.Parent() == nil {
+			cell.V = IVal{K: ivOpaque, S: "initialiser call"}
+			return
+		}
+		saved := it.steps
+		r, err := it.run(f, nil, depth+1)
+		it.steps = saved
+		if err != nil || len(r) != 1 {
+			cell.V = IVal{K: ivOpaque, S: "initialiser call"}
+			return
+		}
+		if r[0].K == ivAgg && cell.aggregate() && r[0].P != nil {
+			cell.copyFrom(r[0].P)
+		} else if !cell.aggregate() {
+			cell.V = r[0]
+		} else {
+			cell.V = IVal{K: ivOpaque, S: "initialiser call"}
+		}
 	case *ssa.MakeMap:
 		// a map literal: every MapUpdate on it in the initialiser with an evident key and value
 		m := map[string]IVal{}
